@@ -95,3 +95,8 @@ func TestStore(t *testing.T) { storeProp.Check(t) }
 var clockProp = h.Define(P, "clock", chain.DrawClock, func(c *h.Ctx, cc chain.ClockCase) { chain.RunClock(c, cc, "C05") })
 
 func TestClock(t *testing.T) { clockProp.Check(t) }
+
+// Concurrent checks of different invocations over different chains (chain/conc.go), race-detector build.
+var concChainsProp = h.Define(P, "concchains", chain.DrawConcChains, func(c *h.Ctx, cc chain.ConcChains) { chain.RunConcChains(c, cc, "C05") })
+
+func TestConcurrentChains(t *testing.T) { concChainsProp.Check(t) }
